@@ -478,6 +478,17 @@ def make_genuine_cases(tier, rng):
     for a, g in ((1e-170, 0.3), (-1e-200, 2.0)):
         cases.append(dict(kind="genuine", mode="jit", family="lin", p=[a, a, 0.0, 0.0], b0=0.0, b1=3.0, guess=g,
                           guess_kind="inside", scenario="tiny_values", flat_root=False, x_tol=1e-13, r_tol=0.0, maxit=50))
+    # roots so large that the float spacing at the root exceeds x_tol (and x_tol = 0 at ordinary roots): the search can only
+    # end through the stagnation test `x + dx == x` of the Newton / bisection steps (directed, no rng; seed C17d)
+    for (p, b0, b1) in [([1.0, 3.0, 3e12, 0.0], 1e-3, 1e8), ([1.0, 3.0, 5e20, 0.0], 1e-3, 1e8), ([1.0, 2.0, 1e10 + 1.0, 0.0], 1.0, 1e7),
+                        ([-1.0, 3.0, 7e15, 0.0], 1e-3, 1e8), ([1.0, 5.0, 3e30, 0.0], 1.0, 1e9), ([1.0, 2.0, 2e16, 0.0], 1.0, 1e12)]:
+        for g in (b0 + 1.0, 0.5 * (b0 + b1), 2.0 * b1):
+            for mode in ("jit", "eager"):
+                cases.append(dict(kind="genuine", mode=mode, family="power", p=p, b0=b0, b1=b1, guess=g, guess_kind="large_root",
+                                  scenario="large_root", flat_root=False, x_tol=1e-13, r_tol=0.0, maxit=200))
+    for (p, b0, b1, g) in [([1.0, 3.0, 4.0, 0.0], 0.5, 100.0, 1.0), ([1.0, 2.0, 9.5, 0.0], 1.0, 9.0, 8.0), ([-2.0, 3.0, 0.3, 0.0], 0.0, 2.0, 1.5)]:
+        cases.append(dict(kind="genuine", mode="jit", family="power", p=p, b0=b0, b1=b1, guess=g, guess_kind="zero_tol",
+                          scenario="zero_tol", flat_root=False, x_tol=0.0, r_tol=0.0, maxit=200))
     return cases
 
 
